@@ -53,7 +53,7 @@ package chronicler
 //@   ensures[pushed_at_most_once] calls("Beacon.PushManyFromMap") <= old(calls("Beacon.PushManyFromMap")) + 1
 
 //@ func (*chroniclerV2).runCompactionLocked(c) (err)
-//@   property C02 C25 C03
+//@   property C02 C25 C03 C01
 //@   overflow: assumed
 //@   holds c.mu
 //@   modifies *
